@@ -56,17 +56,18 @@ def generate(run_seed, tier):
     shape = rn.choice(rf.SHAPES)
     snr = rn.choice(r4a.SNRS)
     p_corrupt = rw.choice([0.0, 0.2, 0.5])
+    decreasing = rn.random() < 0.3
     windows = []
     left = 12
     for wi in range(nwin):
         kmax = max(1, (wl - 400) // 500)
         k = min(left, rw.choice([0, 1, 1, 2, 3, 5]) if wi else rw.choice([1, 1, 2]), kmax)
-        first_min = 400 if wi == 0 else rw.choice([0, 0, 1, 7, 400])
+        first_min = 400 if (wi == 0 or decreasing) else rw.choice([0, 0, 1, 7, 400])
         frames = r4a.place_frames(rw, k, wl, first_min, r4a.gen_frame_hex, p_corrupt) if k else []
         left -= len(frames)
         windows.append({"n": wl, "nseed": rn.getrandbits(31), "frames": frames})
     noise = r4a.finish_noise(windows, shape, snr)
-    if rn.random() < 0.3:
+    if decreasing:
         r4a.decreasing_levels(rn, windows, shape, noise)
     return {"rig": NAME, "prop": PROP, "noise": noise, "windows": windows, "read_size": read_size, "buffer_size": buffer_size,
             "pipe_cap": rs.choice([1, 2, 64]), "sink_stalls": [[rs.randrange(0, 5000), rs.choice([100, 5000])] for _ in range(rs.choice([0, 0, 1]))],
